@@ -201,12 +201,23 @@ func newPrepWith(b *runner.Batch, n int, set world.Set) *prep {
 		must(b, w.Invoke([]world.SignerSpec{world.G(p.u1)}, w.H("nns"), "register", "uone.com", p.u1.ScriptHash(), "a@b.c", int64(1), int64(1), int64(100000), int64(1)), "nns register (u1)") &&
 		must(b, w.Invoke([]world.SignerSpec{world.G(p.u1), world.G(p.u0)}, w.H("nns"), "register", "deep.uone.com", p.u0.ScriptHash(), "a@b.c", int64(1), int64(1), int64(100000), int64(1)), "nns register (deep)") &&
 		must(b, w.Invoke([]world.SignerSpec{world.G(p.u0), world.G(world.Single(p.admk))}, w.H("nns"), "setAdmin", "own.com", world.Hash160Of(p.admk)), "nns setAdmin") &&
+		must(b, w.Invoke([]world.SignerSpec{world.G(p.u1)}, w.H("nns"), "register", "lapsed.com", p.u1.ScriptHash(), "a@b.c", int64(1), int64(1), int64(1000), int64(1)), "nns register (lapsed)") &&
+		must(b, w.Invoke([]world.SignerSpec{world.G(p.u1), world.G(world.Single(p.admk))}, w.H("nns"), "setAdmin", "lapsed.com", world.Hash160Of(p.admk)), "nns setAdmin (lapsed)") &&
+		must(b, w.Invoke([]world.SignerSpec{world.G(p.u1)}, w.H("nns"), "addRecord", "lapsed.com", int64(16), "first life"), "nns addRecord (lapsed)") &&
 		must(b, w.Invoke([]world.SignerSpec{world.G(p.u0)}, w.GAS, "transfer", p.u0.ScriptHash(), w.H("neofs"), int64(100_0000_0000), nil), "deposit") &&
 		must(b, w.Invoke([]world.SignerSpec{world.G(world.Single(p.cand1))}, w.H("neofs"), "innerRingCandidateAdd", p.cand1.PublicKey().Bytes()), "candidate add") &&
 		must(b, w.Invoke([]world.SignerSpec{world.G(p.u0)}, w.GAS, "transfer", p.u0.ScriptHash(), w.H("alphabet0"), int64(1000), nil), "fund alphabet0") &&
 		must(b, w.Invoke([]world.SignerSpec{world.G(p.u0)}, w.GAS, "transfer", p.u0.ScriptHash(), p.nonotary, int64(100_0000_0000), nil), "deposit (no notary)") &&
 		must(b, w.Invoke([]world.SignerSpec{world.G(world.Single(p.cand1))}, p.nonotary, "innerRingCandidateAdd", p.cand1.PublicKey().Bytes()), "candidate add (no notary)")
 	if !ok {
+		w.Close()
+		return nil
+	}
+	// lapsed.com expires (1000 s) and is registered anew by an account that signs nothing afterwards
+	w.Now += 2000 * 1000
+	newOwner := world.Single(world.Key(b.Seed, b.Index, "c03-newowner", 0))
+	w.FundGAS(newOwner.ScriptHash(), 1000_0000_0000)
+	if !must(b, w.Invoke([]world.SignerSpec{world.G(newOwner)}, w.H("nns"), "register", "lapsed.com", newOwner.ScriptHash(), "a@b.c", int64(1), int64(1), int64(100000), int64(1)), "nns register (lapsed, anew)") {
 		w.Close()
 		return nil
 	}
